@@ -603,7 +603,8 @@ func ruleC08KindGroups(c *Ctx) {
 		}
 		n++
 		ks := kf.At(call)
-		c.R.Check(ks.SubsetOf(allowed) && ks != 0, rule, fmt.Sprintf("%s@%s", strings.TrimPrefix(key, "reflect.Value."), what), c.pos(call), fmt.Sprintf("%s run only for instance kinds %s", what, ks),
+		// (inside a helper, a branch can be dead for every kind the evaluator calls it with: an empty set is fine there)
+		c.R.Check(ks.SubsetOf(allowed) && (ks != 0 || call.Parent() != m.E), rule, fmt.Sprintf("%s@%s", strings.TrimPrefix(key, "reflect.Value."), what), c.pos(call), fmt.Sprintf("%s run only for instance kinds %s", what, ks),
 			fmt.Sprintf("the %s access the instance with %s while its kind can be %s (expected a subset of %s)", what, key, ks, allowed))
 	})
 	// closures of the evaluator that touch the instance (hasProperty etc.) run inside the object block: checked through their creation site
